@@ -769,7 +769,14 @@ def _run(res, tier, seed, replay):
     ]
     for sig, txt in sorted(bag.known_hits.items()):
         res.known.append(f"id={known[sig].get('id')} signature={sig} {txt}")
-    for f in bag.spec_fail[:5]:
+    # one witness per kind of failure (subcommand x first words of the reason), at most 8
+    picked, seen_kinds = [], set()
+    for f in bag.spec_fail:
+        k = (f.get("case_id", "").split("/")[0], re.sub(r"[0-9]+", "N", f.get("what", ""))[:48])
+        if k not in seen_kinds:
+            seen_kinds.add(k)
+            picked.append(f)
+    for f in picked[:8]:
         res.violation(dict(kind="property-fails-on-implementation", proof_status=(res.proof_broken or {}).get("what", "all theorems check"), **f))
     if not bag.spec_fail:
         if bag.disagree:
